@@ -598,11 +598,11 @@ type c45Tally struct {
 	accepted  map[string]int64
 	outcomes  map[string]int64
 	fails     []c45Fail
-	sampleAcc map[string]c45ReplayRec
+	sampleAcc map[string]c45Case
 }
 
 func c45NewTally() *c45Tally {
-	return &c45Tally{evals: map[string]int64{}, accepted: map[string]int64{}, outcomes: map[string]int64{}, sampleAcc: map[string]c45ReplayRec{}}
+	return &c45Tally{evals: map[string]int64{}, accepted: map[string]int64{}, outcomes: map[string]int64{}, sampleAcc: map[string]c45Case{}}
 }
 
 // c45Pool runs cases on all CPUs.
@@ -640,7 +640,7 @@ func c45NewPool(t *c45Tally, thorough bool) *c45Pool {
 			}
 			t.fails = append(t.fails, loc.fails...)
 			for k, v := range loc.sampleAcc {
-				if cur, ok := t.sampleAcc[k]; !ok || len(v.RawHex) > len(cur.RawHex) || (len(v.RawHex) == len(cur.RawHex) && v.RawHex < cur.RawHex) {
+				if cur, ok := t.sampleAcc[k]; !ok || c45BetterSample(v.Raw, cur.Raw) {
 					t.sampleAcc[k] = v
 				}
 			}
@@ -671,17 +671,11 @@ func (p *c45Pool) one(c *c45Case, loc *c45Tally) {
 	v := c45Check(c.Kind, c.TypeURL, c.Raw)
 	fam := c.Kind.String() + "/" + c.Family
 	loc.evals[fam]++
-	rec := func() c45ReplayRec {
-		r := c45ReplayRec{Kind: c.Kind.String(), Family: c.Family, Thorough: p.thorough, RawHex: hex.EncodeToString(c.Raw), TypeURL: c.TypeURL}
-		for _, x := range c.Vec {
-			r.Vec = append(r.Vec, int(x))
-		}
-		return r
-	}
+	rec := func() c45ReplayRec { return c45RecOf(c, p.thorough) }
 	if v.OK {
 		loc.accepted[fam]++
-		if cur, ok := loc.sampleAcc[fam]; !ok || len(c.Raw) > len(cur.RawHex)/2 {
-			loc.sampleAcc[fam] = rec()
+		if cur, ok := loc.sampleAcc[fam]; !ok || c45BetterSample(c.Raw, cur.Raw) {
+			loc.sampleAcc[fam] = *c
 		}
 	}
 	if v.Class != "" {
@@ -696,4 +690,22 @@ func (p *c45Pool) one(c *c45Case, loc *c45Tally) {
 		return
 	}
 	loc.outcomes[c.Kind.String()+" "+v.Outcome]++
+}
+
+// c45BetterSample: the written-out sample per family is the longest accepted
+// input, ties broken by byte order (deterministic whatever the worker
+// interleaving).
+func c45BetterSample(a, b []byte) bool {
+	if len(a) != len(b) {
+		return len(a) > len(b)
+	}
+	return string(a) < string(b)
+}
+
+func c45RecOf(c *c45Case, thorough bool) c45ReplayRec {
+	r := c45ReplayRec{Kind: c.Kind.String(), Family: c.Family, Thorough: thorough, RawHex: hex.EncodeToString(c.Raw), TypeURL: c.TypeURL}
+	for _, x := range c.Vec {
+		r.Vec = append(r.Vec, int(x))
+	}
+	return r
 }
